@@ -15,7 +15,7 @@ extern void** vrt_running_slot(int idx);
 extern int vrt_in_rt_push(void);
 extern void vrt_in_rt_pop(int);
 
-static char g_next_name[40];
+static __thread char g_next_name[40]; /* per kernel thread: a spawn on one thread must not name the maintenance fiber another thread creates meanwhile */
 static int g_nthreadfibers;
 void vrt_next_fiber_name(const char* n) { snprintf(g_next_name, sizeof g_next_name, "%s", n); }
 
